@@ -198,6 +198,9 @@ def gen_case(rng):
             files['ctx/c1.yaml'] = ctx_dict()
             context = {'list': [{'dict': ctx_dict()}, {'file': 'ctx/c1.yaml'}, {'dict': ctx_dict()}][:rng.choice([2, 3])]}
     case = dict(classes=classes, files=files, base=base, context=context)
+    if rng.random() < 0.15:
+        # programmatically built data: mappings and sequences of parameter values are subclasses of dict / list
+        case['mapping_class'] = rng.choice(['ordered', 'attr', 'default'])
     if gv is not None:
         case['global_vars'] = gv
     return case
